@@ -173,7 +173,16 @@ func c10Scenarios() []c10Scenario {
 			return e, func() *env.Call { c, _ := s.do(e); return c }
 		}
 	}
-	return []c10Scenario{
+	// every scenario once more with parameters and headers nobody asked for, named after every name the library's
+	// source mentions: whatever switch a name may flip, a storage failure stays a failure
+	noisy := func(run func(o env.Opts) (*env.Env, func() *env.Call)) func(o env.Opts) (*env.Env, func() *env.Call) {
+		return func(o env.Opts) (*env.Env, func() *env.Call) {
+			e, send := run(o)
+			e.ExtraQuery, e.ExtraHeaders = dictQuery(protocolParams...), dictHeaders()
+			return e, send
+		}
+	}
+	base := []c10Scenario{
 		{Name: "sso_redirect_padded_issuer", run: padded("sso", "redirect")},
 		{Name: "logout_post_padded_issuer", run: padded("logout", "post")},
 		{Name: "sso_redirect_unsigned", run: sso("redirect", false)},
@@ -199,6 +208,14 @@ func c10Scenarios() []c10Scenario {
 		{Name: "metadata_signed_with_named_parameters", Opts: env.Opts{MetaSigAlg: spsim.AlgRSASHA256}, run: getWithNames(env.PathMetadata)},
 		{Name: "certificate_with_named_parameters", run: getWithNames(env.PathCert)},
 	}
+	out := base
+	for _, sc := range base {
+		if strings.HasSuffix(sc.Name, "_with_named_parameters") || strings.HasSuffix(sc.Name, "_padded_issuer") {
+			continue
+		}
+		out = append(out, c10Scenario{Name: sc.Name + "_with_unasked_names", Opts: sc.Opts, run: noisy(sc.run)})
+	}
+	return out
 }
 
 type faultPos struct {
